@@ -163,12 +163,14 @@ def run(ctx):
                                  "the joint of the HMM model resp. the chain-rule Gaussian density (quadratic forms and determinants in exact rationals, exp enclosures), and the returned carry; "
                                  "HMM long: 2-3 states, 3-4 symbols, sequences of length 75-110 (quick) or 120-180 (thorough), log marginal around -100 or lower, far below the float32 exp underflow: log marginal compared with ln of the exact rational "
                                  "marginal of the vector recursion by the Interval tactic (tolerance 0.02 + 5e-5|lm|), last filtering distribution in probability space; "
-                                 "Kalman: random rational models with d_state, d_obs in 1..3 (70% with d_obs != d_state), T in 1..4: filtered and smoothed moments and the log "
+                                 "Kalman: random rational models with d_state, d_obs in 1..3 (70% with d_obs != d_state), T in 1..4, also expressed in units of 10^-k (k<=5) and with integer-dtype observation arrays: filtered and smoothed moments and the log "
                                  "marginal likelihood compared with the recursion model AND with dense joint-Gaussian conditioning (tolerance 2e-4, lml through rational exp "
                                  "enclosures); non-trivial = distinct case with T >= 2",
                          "histogram": {"kinds": Counter(c["kind"] for c in cases),
                                        "T": Counter(len(c["ys"]) for c in cases), "long_verdicts": verdicts,
                                        "long_log_marginals": sorted(round(c["log_marginal_float"], 1) for c in cases if "log_marginal_float" in c)[:6],
                                        "dims": Counter(f"{c.get('ds')}x{c.get('do')}" for c in cases if c["kind"] == "kal"),
+                                       "kalman_units": Counter(f"1e-{c.get('unit')}" for c in cases if c["kind"] == "kal"),
+                                       "kalman_int_observations": sum(1 for c in cases if c["kind"] == "kal" and c.get("intobs")),
                                        "errors": Counter(c.get("err", "")[:70] for c in cases if "err" in c)},
                          "samples": [{k: v for k, v in c.items() if k not in ("filt", "fc", "sc", "fm", "sm")} for c in cases[:2]]}}
